@@ -3247,7 +3247,27 @@ func (p *Posix) DeleteObject(ctx context.Context, input *s3.DeleteObjectInput) (
 				// the latest version is not removed first: linking the
 				// promoted version below replaces it atomically, so the
 				// key never appears missing in between
-				srcObjVersion, err := ents[len(ents)-1].Info()
+				//
+				// pick the newest archived entry: version ids (ULIDs) sort
+				// by age, but the entry named "null" sorts after all of
+				// them whatever its age. Place it by modification time,
+				// the same way the version listing does, otherwise an old
+				// null version is promoted over newer versions
+				newest := len(ents) - 1
+				if len(ents) > 1 && ents[newest].Name() == nullVersionId {
+					nfi, err := ents[newest].Info()
+					if err != nil {
+						return nil, fmt.Errorf("get file info: %w", err)
+					}
+					pfi, err := ents[newest-1].Info()
+					if err != nil {
+						return nil, fmt.Errorf("get file info: %w", err)
+					}
+					if !nfi.ModTime().After(pfi.ModTime()) {
+						newest--
+					}
+				}
+				srcObjVersion, err := ents[newest].Info()
 				if err != nil {
 					return nil, fmt.Errorf("get file info: %w", err)
 				}
